@@ -12,6 +12,11 @@ def sh(cmd, cwd=None):
 
 only = sys.argv[1:]
 rows = []
+# evidence files must only ever describe the unchanged tree: keep them aside while patches are applied
+import shutil
+KEEP = os.path.join(ROOT, "target", "evidence.keep.matrix")
+shutil.rmtree(KEEP, ignore_errors=True)
+shutil.copytree(os.path.join(ROOT, "evidence"), KEEP)
 for d in sorted(glob.glob(os.path.join(ROOT, "seeded", "C*"))):
     sid = os.path.basename(d)
     if only and sid not in only:
@@ -58,6 +63,8 @@ for d in sorted(glob.glob(os.path.join(ROOT, "seeded", "C*"))):
     rows.append(meta)
     print(sid, {p: results[p]["exit"] for p in props})
 
+shutil.rmtree(os.path.join(ROOT, "evidence"), ignore_errors=True)
+shutil.move(KEEP, os.path.join(ROOT, "evidence"))
 with open(os.path.join(ROOT, "seeded", "RESULTS.md"), "w") as f:
     f.write("# Seeded property-breaking changes and which checks catch them (quick tier)\n\n")
     f.write("| seed | breaks | what the change does | needs to manifest | caught by | first violation reported |\n|---|---|---|---|---|---|\n")
